@@ -483,7 +483,9 @@ impl Ord for Float {
 
 impl Hash for Float {
     fn hash<H: Hasher>(&self, state: &mut H) {
-        let bits: u64 = unsafe { std::mem::transmute(self.0) };
+        // 0.0 == -0.0, so both must hash to the same value (otherwise hash maps/sets give seed dependent results)
+        let value = if self.0 == 0.0 { 0.0 } else { self.0 };
+        let bits: u64 = unsafe { std::mem::transmute(value) };
         bits.hash(state)
     }
 }
